@@ -1,4 +1,5 @@
 import EvermintModel.Model.Erc20
+import EvermintModel.Model.CallTree
 import Driver.Common
 import Driver.Block
 /-! Driver for E-erc20.
@@ -8,6 +9,7 @@ import Driver.Block
 every answer ends with a digest of all balances, supplies and allowances over the declared universe. -/
 namespace Driver.Erc20
 open Evermint Evermint.Erc20 Driver.Block
+open Evermint.CallTree (Kind Act)
 
 structure DState where
   s : State
@@ -41,6 +43,45 @@ def showLog : Option Log → String
   | some (.transfer t f to a) => s!"T:{t}:{f}:{to}:{a}"
   | some (.approval t o sp a) => s!"A:{t}:{o}:{sp}:{a}"
 
+def methodOf (name : String) (a b n : Nat) : Option Method :=
+  match name with
+  | "balanceOf" => some (.balanceOf a) | "totalSupply" => some .totalSupply
+  | "allowance" => some (.allowance a b) | "transfer" => some (.transfer a n)
+  | "transferFrom" => some (.transferFrom a b n) | "approve" => some (.approve a n)
+  | "burn" => some (.burn n) | "burnFrom" => some (.burnFrom a n) | _ => none
+
+def kindOf : Nat → Kind
+  | 0 => .call | 1 => .staticcall | 2 => .delegatecall | _ => .callcode
+
+/-- tree syntax: `P<k>.<tok>.<method>.<a>.<b>.<n>` | `S<k>.<target>.<rev>(<acts>)`, comma separated -/
+partial def parseActs (cs : List Char) : List Act × List Char :=
+  match cs with
+  | [] => ([], [])
+  | ')' :: rest => ([], rest)
+  | ',' :: rest => parseActs rest
+  | 'P' :: rest =>
+    let tok := rest.takeWhile (fun c => c != ',' && c != ')')
+    let r1 := rest.dropWhile (fun c => c != ',' && c != ')')
+    let fs := (String.ofList tok).splitOn "."
+    let act : Option Act := match fs with
+      | [k, t, m, a, b, n] => (methodOf m (a.toNat?.getD 0) (b.toNat?.getD 0) (n.toNat?.getD 0)).map (fun mm => Act.pc (kindOf (k.toNat?.getD 0)) (t.toNat?.getD 0) mm)
+      | _ => none
+    let (as, r) := parseActs r1
+    (match act with | some a => a :: as | none => as, r)
+  | 'S' :: rest =>
+    let hd := rest.takeWhile (· != '(')
+    let r1 := (rest.dropWhile (· != '(')).drop 1
+    let fs := (String.ofList hd).splitOn "."
+    let (body, r2) := parseActs r1
+    let (as, r) := parseActs r2
+    (match fs with
+      | [k, t, rv] => Act.sub (kindOf (k.toNat?.getD 0)) (t.toNat?.getD 0) body (rv == "1") :: as
+      | _ => as, r)
+  | _ :: rest => parseActs rest
+
+def showLogs (ls : List Log) : String :=
+  if ls.isEmpty then "-" else "+".intercalate (ls.map (fun l => showLog (some l)))
+
 def step (d : DState) (toks : List String) : DState × String :=
   match toks with
   | "einit" :: rest =>
@@ -66,6 +107,11 @@ def step (d : DState) (toks : List String) : DState × String :=
       match r with
       | .revert => (d', "revert " ++ digest d')
       | .ok ret lg => (d', s!"ok ret={ret} log={showLog lg} " ++ digest d')
+  | "tree" :: rest =>
+    let acts := (parseActs ((kv rest "acts").getD "").toList).1
+    let r := Evermint.CallTree.execList { s := d.s, logs := [] } (kvNat rest "self") acts
+    let d' := { d with s := r.s }
+    (d', s!"ok logs={showLogs r.logs} " ++ digest d')
   | "esend" :: rest =>
     let (s', ok) := bankSend d.s (kvNat rest "f") (kvNat rest "t") (kvNat rest "d") (kvNat rest "n")
     let d' := { d with s := s' }
